@@ -176,7 +176,12 @@ func buildValue(rng *vk.Rand, nOps int) *Prog {
 		fl = append(fl, "cmp")
 	}
 	if rng.Chance(1, 3) {
-		ropts = append(ropts, resource.WithWritablePaths(&testproto.TestAllTypes{}, pickPaths(rng, tatPaths, 6)...))
+		if rng.Bool() {
+			ropts = append(ropts, resource.WithWritablePaths(&testproto.TestAllTypes{}, pickPaths(rng, tatPaths, 6)...))
+		} else {
+			// a mask as an owner builds it incrementally (or as it comes off the wire): its slice has room to spare
+			ropts = append(ropts, resource.WithWritableFields(&fieldmaskpb.FieldMask{Paths: append(make([]string, 0, 16), pickPaths(rng, tatPaths, 6)...)}))
+		}
 		fl = append(fl, "writable")
 	}
 	p.flavor = strings.Join(fl, "+")
